@@ -181,9 +181,12 @@ Load(update) == /\ disk.live
 (* reader must see every fact of View(disk) -- everything but the platform's name -- although it does not re-apply      *)
 (* the platform's layers (override.<platform>, platform variables, platform blueprints): they must have been folded in. *)
 (* It is a read: neither the live objects nor the directory change.                                                     *)
-Peek == /\ disk.live /\ PeekOn
-        /\ hist' = Append(hist, [a |-> "Peek", flag |-> FALSE])
-        /\ UNCHANGED <<pk, mem, disk>>
+(* With `update` (the default of experimentFromInstance: updateInstanceConfiguration=True) the reader also writes what it  *)
+(* read back.  That must leave the stored description as it is: the next reload that names the platform the instance was   *)
+(* created for (elaunch --restart) still yields it.  The driver performs that reload as part of the step.                  *)
+Peek(update) == /\ disk.live /\ PeekOn
+                /\ hist' = Append(hist, [a |-> "Peek", flag |-> update])
+                /\ UNCHANGED <<pk, mem, disk>>
 
 (* The instance directory is loaded again as a *package* for another platform with updateInstanceConfiguration=True *)
 (* (what `elaunch --restart` does when the platform changed): Experiment(dir, platform=q, is_instance=False,          *)
@@ -200,7 +203,7 @@ Next == \/ Create \/ Patch \/ Store
         \/ \E q \in AllPlatforms : Reparam(q)
         \/ \E s \in BOOLEAN : Iterate(s)
         \/ \E u \in BOOLEAN : Load(u)
-        \/ Peek
+        \/ \E u \in BOOLEAN : Peek(u)
 Spec == Init /\ [][Next]_vars
 
 Bounded == Len(hist) < MaxLen          \* CONSTRAINT: histories of at most MaxLen actions
@@ -231,7 +234,7 @@ TypeOK == /\ pk \in Packages
 (* what is stored is never ahead of the live objects: it was written by them (Store, Iterate(store)) or they were  *)
 (* rebuilt from it (Load); a Store captures everything instantiated / patched so far                               *)
 DiskNeverAhead == disk.live => (mem.live /\ disk.iters <= mem.iters /\ disk.patch <= mem.patch)
-PeekIsARead == [][Peek => UNCHANGED <<mem, disk>>]_vars
+PeekIsARead == [][(\E u \in BOOLEAN : Peek(u)) => UNCHANGED <<mem, disk>>]_vars
 StoreCapturesAll == [][Store => disk' = Norm(mem)]_vars
 (* "the same experiment" also for what happens next: no observable fact depends on whether the live objects were   *)
 (* reloaded, and a further loop iteration of a reloaded experiment is the iteration the original would have made    *)
